@@ -32,6 +32,14 @@ type pureResult struct {
 	sawGap                                             bool
 }
 
+// genPure: history number i; every fourth long one is the full-cycle family.
+func genPure(run *vk.Run, i uint64, long bool) vdown.PureCase {
+	if long && i%4 == 3 {
+		return vdown.GenPureCycle(run.Rand(1, i))
+	}
+	return vdown.GenPure(run.Rand(1, i), long)
+}
+
 // runPure executes one history against a fresh Map and the oracle.
 func runPure(run *vk.Run, c vdown.PureCase, replay any, exhaustive bool) (res pureResult, failed bool) {
 	var m packetmap.Map
@@ -48,6 +56,9 @@ func runPure(run *vk.Run, c vdown.PureCase, replay any, exhaustive bool) (res pu
 		i := st.Idx
 		s := seq(i)
 		pid := uint16(i / 3)
+		if c.NoPid {
+			pid = 0
+		}
 		dropped := false
 		if st.Drop {
 			dropped = m.Drop(s, pid)
@@ -319,7 +330,7 @@ func main() {
 		} else if cs, ok := m["case"].(map[string]any); ok {
 			if pi, ok := cs["pure_index"].(float64); ok {
 				long, _ := cs["long"].(bool)
-				c := vdown.GenPure(run.Rand(1, uint64(pi)), long)
+				c := genPure(run, uint64(pi), long)
 				runPure(run, c, cs, false)
 			} else if wd, ok := cs["exhaustive_word"].([]any); ok {
 				var word []int
@@ -349,7 +360,7 @@ func main() {
 					return
 				}
 				long := i >= uint64(nPure)
-				c := vdown.GenPure(run.Rand(1, i), long)
+				c := genPure(run, i, long)
 				res, failed := runPure(run, c, map[string]any{"pure_index": i, "long": long}, false)
 				run.Eval(int64(len(c.Steps)))
 				if failed {
@@ -362,6 +373,9 @@ func main() {
 				run.Count("pure_withheld_copies_refused", int64(res.lateWithheldRefused))
 				if res.wraps > 0 {
 					run.Count("pure_histories_with_wrap", 1)
+				}
+				if c.NoPid && res.drops >= 65536 {
+					run.Count("pure_histories_with_a_full_cycle_of_withheld_packets", 1)
 				}
 				if res.drops > 0 && (res.lateFwd > 0 || res.dupFwd > 0) {
 					run.Distinct(fmt.Sprintf("pure s%d n%d d%d l%d u%d w%d g%v", c.Start>>13, len(c.Steps)/64, bucket(res.drops), bucket(res.lateFwd), bucket(res.dupFwd), min(res.wraps, 2), res.sawGap))
@@ -406,6 +420,7 @@ func main() {
 	run.FloorCounter("pure_drops", 1000)
 	run.FloorCounter("pure_late_forwarded", 1000)
 	run.FloorCounter("pure_duplicates_same_number", 500)
+	run.FloorCounter("pure_histories_with_a_full_cycle_of_withheld_packets", 1)
 	run.FloorCounter("pure_withheld_copies_refused", 100)
 	run.FloorCounter("pure_histories_with_wrap", 10)
 	run.FloorCounter("direct_withheld", 500)
